@@ -76,6 +76,9 @@ def universe(key, tier):
         slots3 = ("a1.eff1", "a1.eff2", "a1.eff3")
         for combo in _prod(cond_raw, repeat=3):
             out.append((3, tuple((sl, uprob.raw_eff_choice(sl, r)) for sl, r in zip(slots3, combo))))
+    if key in ("grounder", "tcrm", "cerm", "dcrm", "ncrm", "qurm", "sirm", "uinr", "btrm"):
+        # integer-indexed fluents behind arithmetic argument expressions of integer parameters
+        out.extend(c for c in uprob.intarg_ids() if uprob.make(dict(c[1]), variant) is not None)
     if key == "dcrm":
         # a disjunctive goal is witnessed by an auxiliary action; a LATER step may undo the witnessed
         # disjunct: every disjunctive goal x every effect alternative of every effect slot
